@@ -1011,6 +1011,64 @@ def gen_service(svc):
             + "\n".join(lines) + "\n"]
 
 
+# ---- sd.py: ServiceAnnouncer.handle_subscribe / announce_service / stop_announce_service (C11, C10) ----
+def gen_announcer(sd):
+    out = []
+    A = sd.ServiceAnnouncer
+    f = fn_ast(A.handle_subscribe)
+    b = [s for s in body_of(f) if not is_noise(s)]
+    if [a.arg for a in f.args.args] != ["self", "entry", "addr"] or len(b) not in (3, 4):
+        raise Abort("ServiceAnnouncer.handle_subscribe: unexpected shape")
+    expect_src(b[0], "matching_services = []", "announcer.handle_subscribe (1)")
+    expect_src(b[1], """
+        for instance in self.announcing_services:
+            if instance.handle_subscribe(entry, addr):
+                matching_services.append(instance)
+        """, "announcer.handle_subscribe (2)")
+    g = b[2]
+    gb = [s for s in g.body if not is_noise(s)] if isinstance(g, ast.If) else []
+    if not (isinstance(g, ast.If) and not g.orelse and len(gb) == 3):
+        raise Abort("announcer.handle_subscribe: expected the nothing-matched branch")
+    expect_src(ast.Expr(g.test), "not matching_services", "announcer.handle_subscribe (3)")
+    expect_src(gb[0], "subscription = EventgroupSubscription.from_subscribe_entry(entry)", "announcer.handle_subscribe (4)")
+    expect_src(gb[1], "self._send_subscribe_nack(subscription, addr)", "announcer.handle_subscribe (5)")
+    if not (isinstance(gb[2], ast.Return) and gb[2].value is None):
+        raise Abort("announcer.handle_subscribe: expected return")
+    if len(b) == 4:
+        w = b[3]      # "if len(matching_services) > 1: log"
+        if not (isinstance(w, ast.If) and not w.orelse and all(is_noise(s) for s in w.body)):
+            raise Abort("announcer.handle_subscribe: unexpected tail")
+    f = fn_ast(A._send_subscribe_nack)
+    b = [s for s in body_of(f) if not is_noise(s)]
+    if len(b) != 1:
+        raise Abort("_send_subscribe_nack: unexpected shape")
+    expect_src(b[0], "self.queue_send(subscription.to_nack_entry(), remote=addr)", "_send_subscribe_nack")
+    out.append("(* every announced instance is asked, in order; a Nack is queued for the sender exactly when none of them took the entry *)\n"
+               "Definition gen_announcer_subscribe_nack (any_instance_took_it : bool) : bool := negb any_instance_took_it.\n")
+    f = fn_ast(A.announce_service)
+    b = [s for s in body_of(f) if not is_noise(s)]
+    if [a.arg for a in f.args.args] != ["self", "instance"] or len(b) != 2:
+        raise Abort("announce_service: unexpected shape")
+    expect_src(b[0], """
+        if self.started:
+            instance.start()
+        """, "announce_service (1)")
+    expect_src(b[1], "self.announcing_services.append(instance)", "announce_service (2)")
+    f = fn_ast(A.stop_announce_service)
+    b = [s for s in body_of(f) if not is_noise(s)]
+    if [a.arg for a in f.args.args] != ["self", "instance", "send_stop"] or len(b) != 2:
+        raise Abort("stop_announce_service: unexpected shape")
+    expect_src(b[0], "self.announcing_services.remove(instance)", "stop_announce_service (1)")
+    expect_src(b[1], """
+        if send_stop and self.started:
+            instance.stop()
+        """, "stop_announce_service (2)")
+    out.append("Definition gen_announce_service (started : bool) : list aact := (if started then (AStartInstance :: []) else []) ++ (AAppend :: []).\n")
+    out.append("Definition gen_stop_announce_service (listed send_stop started : bool) : list aact :=\n"
+               "  if negb listed then (ARaiseValueError :: []) else ARemove :: (if send_stop && started then (AStopInstance :: []) else []).\n")
+    return out
+
+
 # ---- service.py: SimpleService.client_subscribed / SimpleEventgroup.subscribe / unsubscribe (C17) ----
 def gen_eventgroup_subscription(svc):
     out = []
@@ -1090,7 +1148,7 @@ def main():
         import someip.config as cfg
         import someip.sd as sd
         import someip.service as svc
-        parts = gen_matchers(cfg) + gen_check_received(sd) + gen_assign_outgoing(sd) + gen_skeletons(sd) + gen_inst_subscribe(sd) + gen_subscriber(sd) + gen_timed_store(sd) + gen_queue_send(sd) + gen_find_answer(sd) + gen_protocol_entry(sd) + gen_send_sd(sd) + gen_service(svc) + gen_eventgroup_subscription(svc)
+        parts = gen_matchers(cfg) + gen_check_received(sd) + gen_assign_outgoing(sd) + gen_skeletons(sd) + gen_inst_subscribe(sd) + gen_subscriber(sd) + gen_timed_store(sd) + gen_queue_send(sd) + gen_find_answer(sd) + gen_protocol_entry(sd) + gen_send_sd(sd) + gen_announcer(sd) + gen_service(svc) + gen_eventgroup_subscription(svc)
     except Abort as exc:
         print("gen_logic: ABORT:", exc)
         return 2
